@@ -422,6 +422,12 @@ func (g *Gen) Call(p pre) Call {
 		c.Sender = "a0"
 	}
 	c.Ops = []Op{g.Op(p, d)}
+	if IsContract(d) && d != "cT" && g.R.Intn(7) == 0 {
+		// an EOA sends its own validly signed message through the contract: delegator = signer = tx origin # caller
+		x := g.pick("a3", "a4", "a5")
+		c.Sender = x
+		c.Ops = []Op{g.signed(p, x, true)}
+	}
 	if d == "cT" {
 		// two calls in one transaction whose native expansions do not depend on each other:
 		// delegations to / undelegations from two different validators
